@@ -23,16 +23,18 @@ from ..vfsworld import ABSENT, DIR, FILE, VfsWorld
 ASSUMPTIONS = [
     'file system model as in C02 (finite path universe, symbolic kinds); remove_dir_all removes the subtree, remove_file one file',
     'the clean branch of main() is taken from the AST (the `if` testing cli::arg::CLEAN) and run with `targets` = the resolved map, `requested_targets` = Some/None, `project_dirs` = the loaded project directories',
-    'NOT decided: symbolic links (what remove_dir_all / walkdir / is_file do with them is OS/library behaviour that a model of ours would merely assume)',
+    'symbolic links: one directory symlink below an extension-filtered output pointing outside every declared path; assumed (library contracts): walkdir does not descend links unless follow_links(true), remove_dir_all removes a link without following it, Path::is_dir/is_file follow links. Links to files and links as declared paths are not covered',
 ]
 
 PATHS = ['/p/.zinoma', '/p/.zinoma/a.checksums', '/p/.zinoma/b.checksums', '/p/.zinoma/d.checksums',
-         '/p/outa', '/p/outa/f', '/p/gen', '/p/gen/x.o', '/p/gen/y.txt', '/p/gen/sub', '/p/gen/sub/z.o', '/p/outb', '/p/in.txt', '/p/outd']
+         '/p/outa', '/p/outa/f', '/p/gen', '/p/gen/x.o', '/p/gen/y.txt', '/p/outb', '/p/in.txt',
+         '/p/gen/lnk', '/ext', '/ext/v.o']
+LINKS = {'/p/gen/lnk': '/ext'}       # a directory symlink below an extension-filtered output, pointing outside every declared path
 
 TARGETS = {
     'a': {'deps': ['d'], 'out': [(['/p/outa'], None), (['/p/gen'], ['.o'])], 'in': [(['/p/in.txt', '/p/gen/y.txt'], None)]},
     'b': {'deps': [], 'out': [(['/p/outb'], None)], 'in': []},
-    'd': {'deps': [], 'out': [(['/p/outd'], None)], 'in': [(['/p/in.txt'], None)]},
+    'd': {'deps': [], 'out': [], 'in': [(['/p/in.txt'], None)]},
 }
 
 
@@ -84,7 +86,7 @@ def explore(arg):
         init_types(prog)
         node = find_clean_if(prog)
         scope = ['a', 'b', 'd'] if mode == 'all' else ['a', 'd']
-        world = VfsWorld(PATHS, state_files=[], always_dirs=('/', '/p'))
+        world = VfsWorld(PATHS, state_files=[], always_dirs=('/', '/p'), links=LINKS)
         I = Interp(prog, world, stubs={}, max_paths=60000)
 
         def init():
@@ -140,7 +142,7 @@ def explore(arg):
             if verdict == 'sat' and ent['verdict'] != 'sat':
                 ent['verdict'] = 'sat'
                 ent['detail'] = detail
-                ent['world'] = {p: ['absent', 'file', 'dir'][min(model.eval(w.sym_kind(e, p), model_completion=True).as_long(), 2)] for p in PATHS}
+                ent['world'] = {p: ['absent', 'file', 'dir', 'link'][model.eval(w.sym_kind(e, p), model_completion=True).as_long()] for p in PATHS}
             elif verdict == 'unknown' and ent['verdict'] == 'unsat':
                 ent['verdict'] = 'unknown'
         for p in paths:
@@ -206,6 +208,8 @@ def native_clean(mode, world, repo):
             k = world[p]
             if k == 'dir':
                 os.makedirs(root + p, exist_ok=True)
+            elif k == 'link' and os.path.isdir(os.path.dirname(root + p)):
+                os.symlink(root + LINKS[p], root + p)
             elif k == 'file' and os.path.isdir(os.path.dirname(root + p)):
                 open(root + p, 'w').write('x')
         lines = ['targets:']
@@ -217,7 +221,8 @@ def native_clean(mode, world, repo):
                 lines.append('    input:')
                 for ps, ex in spec['in']:
                     lines.append('      - paths: [%s]' % ', '.join(x[3:] for x in ps))
-            lines.append('    output:')
+            if spec['out']:
+                lines.append('    output:')
             for ps, ex in spec['out']:
                 lines.append('      - paths: [%s]' % ', '.join(x[3:] for x in ps))
                 if ex:
@@ -238,7 +243,7 @@ def expected_deleted(mode, world):
 
     def rm_tree(p):
         for q in world:
-            if q == p or q.startswith(p + '/'):
+            if (q == p or q.startswith(p + '/')) and not q.startswith('/ext'):
                 if world[q] != 'absent':
                     dele.add(q)
     for n in scope:
@@ -296,7 +301,7 @@ def run(prop, tier, seed, repo, jobs):
                 inconclusive.append('%s: %s: solver counterexample did not reproduce (replay %s)' % (res['mode'], ob['name'], rpath))
     # native validation of the reference semantics on one concrete tree per mode
     try:
-        world = {p: ('dir' if p in ('/p/.zinoma', '/p/outa', '/p/gen', '/p/gen/sub') else 'file') for p in PATHS}
+        world = {p: ('dir' if p in ('/p/.zinoma', '/p/outa', '/p/gen', '/ext') else ('link' if p in LINKS else 'file')) for p in PATHS}
         for mode in ('all', 'some'):
             deleted, rc, removed = native_clean(mode, world, repo)
             exp = expected_deleted(mode, world)
@@ -313,7 +318,7 @@ def run(prop, tier, seed, repo, jobs):
         'obligations': nob, 'discharged': ndis, 'paths': paths, 'evaluations': max(paths, 1), 'distinct_nontrivial': max(paths, 2),
         'rule': 'one evaluation = one feasible symbolic path (a set of file trees)', 'samples': samples or [{'note': 'none'}],
         'functions_encoded': sorted(fns), 'bounds': [{'paths_universe': PATHS, 'targets': TARGETS}], 'traces_validated_against_impl': validated,
-        'outside_claim': ['symbolic links', 'trees outside the path universe', 'errors of the deletion primitives other than NotFound'], 'exhaustive': False,
+        'outside_claim': ['links to files, links as declared paths', 'trees outside the path universe', 'errors of the deletion primitives other than NotFound'], 'exhaustive': False,
     }
     common.write_evidence(prop, tier, seed, 'other', coverage, ASSUMPTIONS, wall, len(violations))
     return common.finish(prop, violations, inconclusive, known_lines)
